@@ -107,7 +107,7 @@ func TestGovcReplay(t *testing.T) {
 `
 
 func c19Bounded(eng *Engine, tier string, seed int64) *BoundedResult {
-	out := runReplayTest(repoDir(), filepath.Join(repoDir(), "logutil", "slogutil"), strings.ReplaceAll(c19TestSrc, "%%", "%"))
+	out := runHarness(repoDir(), filepath.Join(repoDir(), "logutil", "slogutil"), strings.ReplaceAll(c19TestSrc, "%%", "%"))
 	res := &BoundedResult{
 		What:  "every record of the enumeration handled by a JSONHybridHandler (through chains of WithAttrs, next to a sibling with other attributes) yields exactly one newline-terminated JSON object with the two members severity (ERROR for levels >= Error, else NORMAL) and message, the message being the line a slog.TextHandler with the same options and attributes prints; Enabled(l) iff l >= the configured level",
 		Bound: "3 configured levels x 4 WithAttrs chains x 6 record levels x 6 messages (quotes, backslash, newline, HTML characters, empty) x 3 attribute sets; one goroutine",
